@@ -5,8 +5,8 @@ From G04 Require Import Access Creds CredsCheck CredsProofs CredsObligations.
    Connection or not): the field of every message the proxy emits is determined by the
    configuration and the hop alone — the upstream proxy's credential on messages
    addressed to that proxy, nothing on messages addressed to an origin. *)
-Theorem T06_client_pa_never_forwarded : forall om u q m,
-  In m (forward om u q) ->
+Theorem T06_client_pa_never_forwarded : forall om u scheme q m,
+  In m (forward om u scheme q) ->
   h_values PA (o_fields m) =
   match o_to m, upstream_cred om u with
   | ToProxy, Some c => [basic_value c]
@@ -15,8 +15,9 @@ Theorem T06_client_pa_never_forwarded : forall om u q m,
 Proof. exact (forward_pa ob_pa_is_hop_by_hop ob_dialvia_ops). Qed.
 Print Assumptions T06_client_pa_never_forwarded.
 
-Theorem T06_upstream_creds_only_to_proxy : forall om u q m,
-  In m (forward om u q) -> o_to m = ToOrigin -> h_values PA (o_fields m) = [].
+(* ... in clear or inside a tunnel of the upstream proxy (https target: MTunnelled) *)
+Theorem T06_upstream_creds_only_to_proxy : forall om u scheme q m,
+  In m (forward om u scheme q) -> o_to m = ToOrigin -> h_values PA (o_fields m) = [].
 Proof. exact (forward_origin_no_pa ob_pa_is_hop_by_hop ob_dialvia_ops). Qed.
 Print Assumptions T06_upstream_creds_only_to_proxy.
 
@@ -42,21 +43,21 @@ Print Assumptions T06_precedence.
 
 (* Site credentials: on a plain request leaving the proxy, Authorization is the client's own
    lines when the client supplied any, else the matching entry's credential, else absent. *)
-Theorem T06_site_only_on_match : forall es m u q msg,
+Theorem T06_site_only_on_match : forall es m u scheme q msg,
   new_matcher es = Some m ->
   is_connect q = false ->
   existsb (fun x => str_eqb (canon x) AU) (connection_nominated (r_hdr q)) = false ->
-  In msg (forward (Some m) u q) ->
+  In msg (forward (Some m) u scheme q) -> o_kind msg <> MConnect ->
   h_values AU (r_hdr q) = [] ->
   h_values AU (o_fields msg) =
-  match spec_match_url es (b "http") (r_host q) with Some c => [basic_value c] | None => [] end.
+  match spec_match_url es scheme (r_host q) with Some c => [basic_value c] | None => [] end.
 Proof. exact (site_only_on_match ob_lookup_order ob_http_port ob_https_port ob_au_not_hop_by_hop ob_site_auth_checks_all_lines). Qed.
 Print Assumptions T06_site_only_on_match.
 
-Theorem T06_client_authorization_kept : forall om u q msg l ls,
+Theorem T06_client_authorization_kept : forall om u scheme q msg l ls,
   is_connect q = false ->
   existsb (fun x => str_eqb (canon x) AU) (connection_nominated (r_hdr q)) = false ->
-  In msg (forward om u q) ->
+  In msg (forward om u scheme q) -> o_kind msg <> MConnect ->
   h_values AU (r_hdr q) = l :: ls ->
   h_values AU (o_fields msg) = l :: ls.
 Proof. exact (client_authorization_kept ob_au_not_hop_by_hop ob_site_auth_checks_all_lines). Qed.
@@ -81,7 +82,12 @@ Example T06_example :
                   r_hdr := [(b "Proxy-Authorization", [b "Basic Y2xpOmVudA=="; b "Basic eA=="]);
                             (b "Connection", [b "proxy-authorization"])] |} in
       map (fun msg => (pa_of (o_fields msg), auth_of (o_fields msg)))
-          (forward (Some m) (UpStatic (b "http") (b "10.0.0.1:3128") None) q)
-      = [([basic_value (b "up", b "uppw")], [basic_value (b "x", b "xp")])]
+          (forward (Some m) (UpStatic (b "http") (b "10.0.0.1:3128") None) (b "http") q)
+      = [([basic_value (b "up", b "uppw")], [basic_value (b "x", b "xp")])] /\
+      (* the same request to https://example.test/: CONNECT to the proxy with the proxy's credential only,
+         then the request inside the tunnel with the site credential for port 443 (host:* entry) only *)
+      map (fun msg => (o_to msg, pa_of (o_fields msg), auth_of (o_fields msg)))
+          (forward (Some m) (UpStatic (b "http") (b "10.0.0.1:3128") None) (b "https") q)
+      = [(ToProxy, [basic_value (b "up", b "uppw")], []); (ToOrigin, [], [basic_value (b "h", b "hp")])]
   end.
-Proof. exact (conj eq_refl (conj eq_refl (conj eq_refl (conj eq_refl eq_refl)))). Qed.
+Proof. exact (conj eq_refl (conj eq_refl (conj eq_refl (conj eq_refl (conj eq_refl eq_refl))))). Qed.
